@@ -2750,7 +2750,7 @@ impl ModuleGraph {
           break;
         }
         redirected_specifier = specifier;
-        if seen.len() >= MAX_REDIRECTS {
+        if seen.len() > MAX_REDIRECTS {
           log::warn!(
             "An excessive number of redirections detected.\n  Original specifier: {specifier}"
           );
